@@ -392,3 +392,87 @@ def run_c20(prop, tier, seed):
 
 def run(prop, tier, seed):  # noqa: F811
     return {"C09": run_c09, "C19": run_c19, "C18": run_c18, "C20": run_c20}[prop](prop, tier, seed)
+
+
+# ---------------------------------------------------------------------------------------------------------------------
+C17_SPECS = [  # (module, quick cfg, thorough cfg, what the bounded domain is)
+    ("Config", "MCConfigQ", "MCConfig", "ApplyDefaults: nothing / everything / every single option (quick) and every pair of options (thorough) set "
+                                         "explicitly, to the default value itself or to another value, x 4 environment cases; second application"),
+    ("ConfigGet", "MCConfigGetQ", "MCConfigGet", "derived Couchbase-metadata / membership / leader-election settings: override maps with <= 1 (quick) / <= 3 "
+                                                  "(thorough) keys present, and the full map, x 2 main settings"),
+    ("MCDataUnit", "MCDataUnitQ", "MCDataUnit", "size strings: integer part x fraction digits (<= 3) x '.'|',' x blanks x unit spellings; plain integers"),
+    ("EnvSubst", "MCEnvSubstQ", "MCEnvSubst", "${VAR} layouts of <= 3 (quick) / <= 5 (thorough) tokens over 2 variables x which variables are set"),
+]
+
+
+def run_c17(prop, tier, seed):
+    t0 = time.time()
+    os.makedirs(vlib.CACHE, exist_ok=True)
+    work = os.path.join(vlib.CACHE, "c17-%d" % os.getpid())
+    shutil.rmtree(work, ignore_errors=True); os.makedirs(work)
+    try:
+        vfunc = build_vfunc(work)
+        vlib.spec_copy(work)
+        runs, nrows = [], {}
+        with open(os.path.join(work, "table.txt"), "w") as tab:
+            for mod, cq, ct, note in C17_SPECS:
+                cfg = cq if tier == "quick" else ct
+                out, rc, wall = vlib.tlc(work, mod, cfg, timeout=3000)
+                r = vlib.parse_tlc(out)
+                if r["violated"] or r["error"] or not r.get("complete"):
+                    raise vlib.Machinery("%s does not pass TLC: %s %s\n%s" % (cfg, r["violated"], r["error"], out[-1500:]))
+                runs.append(dict(r, cfg=cfg, constants=note, wall_s=round(wall, 1)))
+                for m in re.finditer(r'^<<"(CFG|GET|UNIT|SUBST)", "(.*)">>$', out, re.M):
+                    tab.write("%s %s\n" % (m.group(1), vlib.sched_extract.tla_unescape(m.group(2))))
+                    nrows[m.group(1)] = nrows.get(m.group(1), 0) + 1
+        if len(nrows) != 4 or min(nrows.values()) == 0:
+            raise vlib.Machinery("a specification printed no table rows: %s" % nrows)
+        p = subprocess.run([vfunc, "-what", "config", "-in", os.path.join(work, "table.txt"), "-out", os.path.join(work, "mon.ndjson")],
+                           capture_output=True, text=True, timeout=1500)
+        if p.returncode != 0:
+            raise vlib.Machinery("vfunc config failed: " + p.stderr[-2000:])
+        n = sum(1 for _ in open(os.path.join(work, "mon.ndjson")))
+        if n != sum(nrows.values()):
+            raise vlib.Machinery("vfunc returned %d of %d rows" % (n, sum(nrows.values())))
+        mout, rc, _ = vlib.tlc(work, "MonConfig", workers=1, timeout=3000, env=dict(os.environ, JAVA_TOOL_OPTIONS="-Xss256m"))
+        m = re.search(r'<<"VERDICT", (\d+), "(.*)">>', mout)
+        if not m or int(m.group(1)) != n:
+            raise vlib.Machinery("MonConfig did not consume the table (%s of %d rows)\n%s" % (m.group(1) if m else "?", n, mout[-1500:]))
+        bad = json.loads(vlib.sched_extract.tla_unescape(m.group(2)))
+        rows = open(os.path.join(work, "mon.ndjson")).read().splitlines()
+        viols = []
+        rp = os.path.join(os.environ.get("VERIF_EVIDENCE_DIR", os.path.join(vlib.VERIF, "evidence")), "replay"); os.makedirs(rp, exist_ok=True)
+        seen = set()
+        for _, pos, pid, msg in sorted(bad, key=lambda b: b[1]):
+            if msg in seen:
+                continue
+            seen.add(msg)
+            dst = os.path.join(rp, "C17-row%d.json" % pos)
+            json.dump({"family": "config", "row": json.loads(rows[pos - 1]), "message": msg}, open(dst, "w"))
+            viols.append((dst, msg))
+        cov = {"states": sum(r["distinct"] for r in runs), "transitions": sum(r["generated"] for r in runs),
+               "traces_validated_against_impl": n, "model_checking_runs": runs, "table_rows_replayed_into_real_code": nrows,
+               "rows_violating": len(bad), "samples": [json.loads(rows[0]), json.loads(rows[-1])],
+               "evaluations": n, "exhaustive": True,
+               "rule": "every row TLC printed for the bounded domains above is executed by the real ApplyDefaults (twice), the real getters, "
+                       "the real ResolveUnionIntOrStringValue and the real newDcpConfig; MonConfig.tla (TLC) judges every result"}
+        evidence(prop, tier, seed, "model_checking", cov,
+                 ["pure functions: the specifications are transcriptions; the binding is table replay, the verdict TLC's on the real outputs",
+                  "option values are two representatives per option (the default value itself, another value); 64-bit sizes beyond 2 GiB "
+                  "cannot be represented in TLC's 32-bit integers and are not covered",
+                  "applyLogging defaults the level only while no logger exists; the harness clears the logger before the first application"],
+                 time.time() - t0, len(viols))
+        print("property=C17 tier=%s: TLC %d states of Config/ConfigGet/DataUnit/EnvSubst; %d rows (%s) through the real code; %d rows violate; "
+              "%d violations" % (tier, cov["states"], n, ", ".join("%s %d" % kv for kv in sorted(nrows.items())), len(bad), len(viols)))
+        for dst, msg in viols[:10]:
+            print("VIOLATION property=C17 replay=%s   (%s)" % (dst, msg))
+        return 1 if viols else 0
+    except vlib.Machinery as e:
+        print("MACHINERY-ERROR property=%s %s" % (prop, e))
+        return 2
+    finally:
+        shutil.rmtree(work, ignore_errors=True)
+
+
+def run(prop, tier, seed):  # noqa: F811
+    return {"C09": run_c09, "C19": run_c19, "C18": run_c18, "C20": run_c20, "C17": run_c17}[prop](prop, tier, seed)
